@@ -47,7 +47,7 @@ def check(case, st):
     const = all(not k for k in D0)
     if len(D0) - (() in D0) >= 2:
         st.nontrivial += 1
-    conts = list(gen.SPIN_CONTAINERS if spin else gen.BOOL_CONTAINERS) + ["dictperm", "dictrep"]
+    conts = list(gen.SPIN_CONTAINERS if spin else gen.BOOL_CONTAINERS) + ["dictperm", "dictrep", "dictdup"]
     for cont in conts:
         if cont in gen.DEG2 and deg > 2:
             continue
@@ -57,6 +57,9 @@ def check(case, st):
             st.extra["models_built"] = st.extra.get("models_built", 0) + 1
             if cont == "dictperm":
                 M = {tuple(reversed(k)): v for k, v in D.items()}
+            elif cont == "dictdup":
+                from .c04 import spell
+                M = spell(D, "dictdup", spin)
             elif cont == "dictrep":
                 # raw dict whose keys repeat labels (same function: x^2 = x, z^2 = 1); the *_value functions accept these
                 from .c04 import spell
@@ -66,7 +69,7 @@ def check(case, st):
             table = rp.tt(D, labels, spin)
             tmin, tmax = float(table.min()), float(table.max())
             fns = ["approximate_puso_extrema" if spin else "approximate_pubo_extrema"]
-            if deg <= 2 and cont != "dictrep":
+            if deg <= 2 and cont not in ("dictrep", "dictdup"):
                 fns.append("approximate_quso_extrema" if spin else "approximate_qubo_extrema")
             for fn in fns:
                 st.transitions += 1
